@@ -105,14 +105,18 @@ Qed.
 Theorem empty_neighbourhood (s : nbr) l seed row orc :
   neighborhood N s row orc = Some [] ->
   (exists r, nbr_row N aeqb RG s l seed row orc false = Some (inr (n_exp s), r)) /\
-  (exists a r, nbr_row N aeqb RG s l seed row orc true = Some (inl a, r) /\
+  (nnprob_len_ok s = true ->
+   exists a r, nbr_row N aeqb RG s l seed row orc true = Some (inl a, r) /\
      a = nth_error (n_arms s)
-           (Z.to_nat (match fst (draw_z RG (create RG seed) (RqChoice (length (n_arms s)) (n_nnprob s))) with x :: _ => x | [] => 0%Z end))).
+           (Z.to_nat (match fst (draw_z RG (create RG seed) (RqChoice (length (n_arms s)) (n_nnprob s))) with x :: _ => x | [] => 0%Z end))) /\
+  (* finding D24: a probability list that no longer has one entry per arm makes predict raise *)
+  (nnprob_len_ok s = false -> nbr_row N aeqb RG s l seed row orc true = None).
 Proof.
-  intros H. unfold nbr_row. rewrite H. split.
+  intros H. unfold nbr_row. rewrite H. split; [|split].
   - eexists; reflexivity.
-  - destruct (draw_z RG (create RG seed) (RqChoice (length (n_arms s)) (n_nnprob s))) as [v g']. simpl.
+  - intros Hok. rewrite Hok. cbn [negb]. destruct (draw_z RG (create RG seed) (RqChoice (length (n_arms s)) (n_nnprob s))) as [v g']. simpl.
     eexists; eexists; split; reflexivity.
+  - intros Hok. rewrite Hok. reflexivity.
 Qed.
 
 End NbrFacts.
